@@ -99,7 +99,7 @@ static Op decode_op(FuzzedDataProvider &f, int nmods, bool script, int kind) {
 
 static Prog decode(const uint8_t *data, size_t size) {
     FuzzedDataProvider f(data, size);
-    Prog p; p.profile = g_prop;
+    Prog p; p.profile = g_prop; { int fl = f.ConsumeIntegralInRange<int>(0, 7); p.cyc = (fl & 3) == 0; p.names = (fl & 4) != 0; }
     p.nmods = f.ConsumeIntegralInRange<int>(1, 4);
     for (int i = 0; i < p.nmods; i++) {
         p.mods[i].hooks = f.ConsumeIntegralInRange<int>(0, 7);
